@@ -3,6 +3,7 @@ package main
 import (
 	"fmt"
 	"runtime"
+	"sort"
 	"strings"
 
 	structform "github.com/elastic/go-structform"
@@ -105,13 +106,49 @@ func scribble(cs [][]byte) {
 	}
 }
 
-func aliasRun(f *format, gcEvery, cache int, doc1, doc2 [][]byte) string {
+// targets: 0 interface{}; 1 map[string][]interface{}; 2 map[string]map[string]interface{};
+// 3 map[string]*string; 4 []string  (reflection-based map / slice unfolders and their keys)
+func aliasTargets(kind int) (interface{}, interface{}, func() string) {
+	switch kind {
+	case 1:
+		var a, b map[string][]interface{}
+		return &a, &b, func() string { return fmt.Sprintf("%#v", a) }
+	case 2:
+		var a, b map[string]map[string]interface{}
+		return &a, &b, func() string { return fmt.Sprintf("%#v", a) }
+	case 3:
+		var a, b map[string]*string
+		return &a, &b, func() string {
+			var sb strings.Builder
+			keys := make([]string, 0, len(a))
+			for k := range a {
+				keys = append(keys, k)
+			}
+			sort.Strings(keys)
+			for _, k := range keys {
+				if a[k] == nil {
+					fmt.Fprintf(&sb, "%q:nil ", k)
+				} else {
+					fmt.Fprintf(&sb, "%q:%q ", k, *a[k])
+				}
+			}
+			return sb.String()
+		}
+	case 4:
+		var a, b []string
+		return &a, &b, func() string { return fmt.Sprintf("%#v", a) }
+	}
+	var a, b interface{}
+	return &a, &b, func() string { return valTokAny(a) }
+}
+
+func aliasRun(f *format, gcEvery, cache, tkind int, doc1, doc2 [][]byte) string {
 	res := "A ok"
 	o := guard(2*guardTime, func() {
 		// (a) unfolder
 		c1, c2 := ownChunks(doc1), ownChunks(doc2)
-		var t1, t2 interface{}
-		u, _ := gotype.NewUnfolder(&t1)
+		pt1, pt2, show := aliasTargets(tkind)
+		u, _ := gotype.NewUnfolder(pt1)
 		if cache >= 0 {
 			u.EnableKeyCache(cache)
 		}
@@ -129,14 +166,14 @@ func aliasRun(f *format, gcEvery, cache int, doc1, doc2 [][]byte) string {
 			res = "A ok" // document 1 is not accepted: nothing stored to compare
 			return
 		}
-		before := valTokAny(t1)
+		before := show()
 		scribble(c1)
-		u.SetTarget(&t2)
+		u.SetTarget(pt2)
 		if feed(c2) == nil {
 			scribble(c2)
 		}
 		runtime.GC()
-		if after := valTokAny(t1); after != before {
+		if after := show(); after != before {
 			res = "A unfolded value changed: " + strings.ReplaceAll(before, " ", "_") + " -> " + strings.ReplaceAll(after, " ", "_")
 			return
 		}
@@ -174,7 +211,8 @@ func valTokAny(v interface{}) string {
 
 func aliasCase(r *rng) string {
 	f := formats[fmtNames[r.n(3)]]
-	gen := func() [][]byte {
+	var gen func() [][]byte
+	gen = func() [][]byte {
 		doc := f.genItem(r)
 		if r.chance(1, 3) {
 			// string-heavy documents: long strings and keys cross chunk boundaries
@@ -192,19 +230,59 @@ func aliasCase(r *rng) string {
 		}
 		return r.chunking(doc)
 	}
+	tkind := 0
+	if r.chance(1, 2) {
+		tkind = 1 + r.n(4)
+		shaped := func() [][]byte {
+			str := func(i int) event {
+				return event{kind: evStr, sc: scalar{kind: evStr, s: []byte(strings.Repeat("s", r.n(80)) + fmt.Sprint(i))}}
+			}
+			key := func(i int) event {
+				return event{kind: evKey, s: []byte(strings.Repeat("k", r.n(80)) + fmt.Sprint(i))}
+			}
+			var evs []event
+			n := 1 + r.n(4)
+			if tkind == 4 {
+				evs = append(evs, event{kind: evArrStart, n: -1})
+				for i := 0; i < n; i++ {
+					evs = append(evs, str(i))
+				}
+				evs = append(evs, event{kind: evArrEnd})
+			} else {
+				evs = append(evs, event{kind: evObjStart, n: -1})
+				for i := 0; i < n; i++ {
+					evs = append(evs, key(i))
+					switch tkind {
+					case 1:
+						evs = append(evs, event{kind: evArrStart, n: -1}, str(i), event{kind: evArrEnd})
+					case 2:
+						evs = append(evs, event{kind: evObjStart, n: -1}, key(i+10), str(i), event{kind: evObjEnd})
+					case 3:
+						evs = append(evs, str(i))
+					}
+				}
+				evs = append(evs, event{kind: evObjEnd})
+			}
+			w := &recWriter{failAt: -1}
+			vs, _ := f.newVisitor(w, 0)
+			play(structform.EnsureExtVisitor(vs), evs)
+			return r.chunking(w.bytes())
+		}
+		gen = shaped
+	}
 	d1, d2 := gen(), gen()
 	gc := []int{0, 0, 1, 3, 7}[r.n(5)]
 	cache := -1
 	if r.chance(1, 3) {
 		cache = r.n(4)
 	}
-	return fmt.Sprintf("alias\t%s %d %d | %s | %s\t%s", f.name, gc, cache, chunksTok(d1), chunksTok(d2), aliasRun(f, gc, cache, d1, d2))
+	return fmt.Sprintf("alias\t%s %d %d %d | %s | %s\t%s", f.name, gc, cache, tkind, chunksTok(d1), chunksTok(d2), aliasRun(f, gc, cache, tkind, d1, d2))
 }
 
 func aliasReplay(input string) string {
 	parts := strings.SplitN(input, "|", 3)
 	h := strings.Fields(parts[0])
-	return aliasRun(formats[h[0]], atoi(h[1]), atoi(h[2]), parseChunks(strings.Fields(parts[1])), parseChunks(strings.Fields(parts[2])))
+	return aliasRun(formats[h[0]], atoi(h[1]), atoi(h[2]), atoi(h[3]), parseChunks(strings.Fields(parts[1])), parseChunks(strings.Fields(parts[2])))
 }
 
 func init() {
